@@ -479,6 +479,14 @@ def run(F, rep):
     for o in sub.obligations:
         if o["rule"] == "C03-PRED":
             rep.ob("C02-PRED", o["instance"], o["ok"], detail=o["detail"], site=o["site"], key=o["key"].replace("C03-PRED", "C02-PRED"))
+    # (NAME) the collection-contigs stream holds names in the AGC delta code (fields cut at single spaces, run / same-field
+    # markers, 0 terminator): a reader built from the format rules recovers other names when either side departs from it
+    n = 0
+    for o in sub.obligations:
+        if o["rule"] in ("C03-NAME", "C03-RUN"):
+            n += 1
+            rep.ob("C02-NAME", o["instance"], o["ok"], detail=o["detail"], site=o["site"], how=o["how"], key=o["key"].replace(o["rule"], "C02-NAME"))
+    rep.floor("C02-NAME", n, 7, "contig-name codec clauses shared with C03")
     # LZ-diff text: the predicted reference position moves as the format says (+1 per literal, unchanged by an N-run, coded
     # position + length after a match).  A change made consistently on both sides still round-trips in ragc but is not AGC.
     from rules import c09
